@@ -86,9 +86,10 @@ func (iq *IndexQuery) FetchCollection(db *badger.DB) ([]string, error) {
 	offset := iq.Offset
 	limit := iq.Limit
 
-	// Quick exit if we are fetching zero items
+	// Quick exit if we are fetching zero items. The result is an empty
+	// collection, not nil, as nil would be sent as null in responses.
 	if limit == 0 {
-		return nil, nil
+		return []string{}, nil
 	}
 
 	// Set "unlimited" limit to max int value
